@@ -51,6 +51,7 @@ type hist struct {
 	Clients int     `json:"clients,omitempty"`
 	Rounds  int     `json:"rounds,omitempty"`
 	Seed    uint64  `json:"seed,omitempty"`
+	E2E     *e2eIn  `json:"e2e,omitempty"`
 	family  string
 }
 
@@ -98,6 +99,18 @@ func (h hist) input() map[string]any {
 	}
 	return map[string]any{"kind": "forced", "ops": h.Ops, "schedule": h.String(),
 		"z_how": "internal/c19/child (go build -race -tags verif): sse.Handler.ServeHTTP with a ResponseWriter whose Write blocks until released; ops are executed one at a time, waiting for the handler to settle after each"}
+}
+
+func ptr[T any](x T) *T { return &x }
+
+func scanDetail(err error, deadlines []string) string {
+	if err != nil {
+		return err.Error()
+	}
+	if len(deadlines) > 0 {
+		return "write deadline given by: " + strings.Join(deadlines, "; ")
+	}
+	return ""
 }
 
 func goEnv() []string {
@@ -471,15 +484,18 @@ func features(h hist) []string {
 }
 
 func Run(c *core.Ctx) {
-	c.Rule = "histories = sequences of harness operations (subscribe free/stalled/healthy/already-cancelled, broadcast, burst, concurrent broadcasts, release a stalled write with or without error, a reader stalling / resuming, cancel, read registry size) executed on the real sse.Handler in a -race subprocess: named forced schedules, every sequence over two 8-operation alphabets up to the tier's length, random churn, random populations of stalled writers next to healthy readers with several broadcasts; plus stress runs of proxy.Handler behind httptest.Server with real HTTP clients. distinct non-trivial = distinct operation sequences in which a broadcast is issued while at least one client is registered"
+	c.Rule = "histories = sequences of harness operations (subscribe free/stalled/healthy/already-cancelled, broadcast, burst, concurrent broadcasts, release a stalled write with or without error, a reader stalling / resuming, cancel, read registry size) executed on the real sse.Handler in a -race subprocess: named forced schedules, every sequence over two 8-operation alphabets up to the tier's length, random churn, random populations of stalled writers next to healthy readers with several broadcasts; plus stress runs of proxy.Handler behind httptest.Server with real HTTP clients. distinct non-trivial = distinct operation sequences in which a broadcast is issued while at least one client is registered; plus end-to-end scenarios (a timeline of browsers connecting / leaving by themselves and broadcasts via SendSSE, POST and NotifyProxy, drawn from the same PRNG) against the proxy started by generatecmd.StartProxy on a real TCP port, one browser per connection-age class (quick: about 1, 6, 12 and 20+ s old when the closing broadcasts are issued; thorough: up to 2.5 min), run in child processes of their own concurrently with the histories; every scenario is distinct and non-trivial"
 	c.Trusted = append(c.Trusted,
 		"model coq/model/Sse.v: critical sections of ServeHTTP are atomic steps (straight-line, non-blocking code under the mutex); Go channel/select/mutex semantics as modelled (unbuffered rendezvous, send on closed channel panics, close of closed channel panics)",
 		"extraction: ExtrOcamlBasic only; ocaml/driver.ml",
 		"Go harness internal/c19 (+ child), Go race detector, runtime.NumGoroutine / runtime.Stack",
-		"hook cmd/templ/generatecmd/sse/verif_c19.go (reads len(requests) under the mutex)")
+		"hook cmd/templ/generatecmd/sse/verif_c19.go (reads len(requests) under the mutex)",
+		"model coq/model/SseTransport.v: net/http arms a connection's write deadline once per request and a write past it loses the bytes and cancels the request context (observed with go1.23.5); ReadTimeout / ReadHeaderTimeout / IdleTimeout do not end a response in progress (observed)",
+		"end to end: the HTTP clients of internal/c19/child stand for browsers (own TCP connection each, EventSource's request headers, no reconnect); the order of the harness's log (one mutex) is the real-time order")
 	c.Assume = append(c.Assume,
 		"liveness (actual delivery) needs fairness: a blocked Write eventually returns, a select whose receive case stays ready eventually takes it, runnable goroutines and mutex waiters eventually run (C19_delivery_progress states what is proved without it)",
 		"the browser side (EventSource reconnect) and net/http's detection of a closed connection (request context cancellation) are outside the model",
+		"end to end, a browser is connected from the moment it has read its first ping until it closes the stream itself; a stream the server side ends discharges nothing (spec/Browser.v)",
 		"cmd.go calls proxy.Handler.SendSSE synchronously from its event loop: that Send never blocks is what keeps the watch loop live")
 	c.Proofs()
 
@@ -496,6 +512,49 @@ func Run(c *core.Ctx) {
 		return
 	}
 	c.Extra["child_build_s"] = time.Since(t0).Seconds()
+
+	// ---- end-to-end scenarios (long-lived connections): started now, in processes of their own, judged at the end ----
+	quickAges := [][2]int{{500, 2000}, {5500, 8500}, {10500, 14500}, {20000, 21500}}
+	erng := c.Rng.Fork()
+	var e2eHs []hist
+	if c.Replay == "" {
+		e2eHs = append(e2eHs, hist{ID: 1, Kind: "e2e", E2E: ptr(genE2E(erng, 21500, quickAges)), family: "end to end through StartProxy"})
+		if !c.Quick() {
+			e2eHs = append(e2eHs,
+				hist{ID: 2, Kind: "e2e", E2E: ptr(genE2E(erng, 21500, quickAges)), family: "end to end through StartProxy"},
+				hist{ID: 3, Kind: "e2e", E2E: ptr(genE2E(erng, 75000, append(append([][2]int{}, quickAges...), [2]int{30000, 45000}, [2]int{62000, 75000}))), family: "end to end through StartProxy"},
+				hist{ID: 4, Kind: "e2e", E2E: ptr(genE2E(erng, 150000, append(append([][2]int{}, quickAges...), [2]int{31000, 59000}, [2]int{61000, 119000}, [2]int{121000, 150000}))), family: "end to end through StartProxy"})
+		}
+	} else {
+		var doc struct {
+			Failures []struct {
+				Input struct {
+					Kind string `json:"kind"`
+					E2E  *e2eIn `json:"e2e"`
+				} `json:"input"`
+			} `json:"failures"`
+		}
+		if b, err := os.ReadFile(c.Replay); err == nil && json.Unmarshal(b, &doc) == nil {
+			for _, f := range doc.Failures {
+				if f.Input.Kind == "e2e" && f.Input.E2E != nil && len(e2eHs) < 4 {
+					e2eHs = append(e2eHs, hist{ID: len(e2eHs) + 1, Kind: "e2e", E2E: f.Input.E2E, family: "replay"})
+				}
+			}
+		}
+	}
+	e2eLimit := 60 * time.Second
+	for _, h := range e2eHs {
+		e2eLimit = max(e2eLimit, time.Duration(h.E2E.durationMs()+h.E2E.SettleMs+45000)*time.Millisecond)
+	}
+	e2eProcs := startE2E(bin, e2eHs)
+	c.Extra["first_e2e_scenario"] = ""
+	if len(e2eHs) > 0 {
+		c.Extra["first_e2e_scenario"] = e2eHs[0].E2E.String()
+	}
+	servers, deadlines, scanErr := scanTransport()
+	c.Extra["e2e_listeners_in_source"] = servers
+	c.Oblige("contract", "transport contract of the delivery theorems (model/SseTransport.v, wdl = None): nothing in cmd/templ/generatecmd{,/proxy,/sse} gives the connections of the events route a write deadline (static scan for http.Server.WriteTimeout, http.TimeoutHandler, SetWriteDeadline/SetDeadline; listeners found: "+strings.Join(servers, "; ")+")",
+		scanErr == nil && len(deadlines) == 0 && len(servers) > 0, scanDetail(scanErr, deadlines))
 
 	// ---- histories ----
 	var hs []hist
@@ -954,7 +1013,7 @@ func Run(c *core.Ctx) {
 			// nothing else explains it: the implementation did not make a step the model says is enabled
 			c.Fail("tie", "the handler settles after every operation", "", in, unsettledNote)
 		}
-		if i%97 == 0 {
+		if i%97 == 0 && len(c.Samples) < 10 {
 			c.Sample(map[string]any{"schedule": h.String(), "observed": obsString(r.Obs), "send_max_us": r.SendMaxNs / 1000, "goroutines": []int{r.G0, r.G1}})
 		}
 	}
@@ -965,7 +1024,7 @@ func Run(c *core.Ctx) {
 	c.Oblige("correspondence", "at the quiescence point the model has nothing pending: every event reached every remaining client of its snapshot (C19_accepted_quiescent_delivered applies)", delivered, "")
 	c.Oblige("correspondence", "the handler settled within the harness timeout after every operation", settled, "")
 	c.Extra["settle_points_judged"] = settlePoints
-	c.Oblige("correspondence", fmt.Sprintf("at each of the %d points where the harness saw the handler come to rest (stalled writers still stalled) the model state is at rest (extracted stableb): every delivery still pending is for a client itself stalled in a write, so every healthy client has every broadcast of its snapshot (C19_settled_points_judged, C19_stalled_clients_hold_up_nobody)", settlePoints), atRest && settlePoints > 0, "")
+	c.Oblige("correspondence", fmt.Sprintf("at each of the %d points where the harness saw the handler come to rest (stalled writers still stalled) the model state is at rest (extracted stableb): every delivery still pending is for a client itself stalled in a write, so every healthy client has every broadcast of its snapshot (C19_settled_points_judged, C19_stalled_clients_hold_up_nobody)", settlePoints), atRest && (settlePoints > 0 || c.Replay != ""), "")
 	c.Oblige("correspondence", fmt.Sprintf("Send returned within %v in every history although clients were stalled (max %d us)", 2*time.Second, sendMax/1000), sendOK, "")
 	c.Oblige("correspondence", "goroutine count back to the baseline and no goroutine inside package sse after every history", noLeak, "")
 
@@ -1011,6 +1070,7 @@ func Run(c *core.Ctx) {
 	}
 	c.Extra["stress_runs"] = nS
 	c.Oblige("correspondence", "stress (proxy.Handler behind httptest.Server, real HTTP clients cancelling and reading slowly): every client connected throughout received every broadcast exactly once, nothing spurious, goroutines back to baseline", stressOK && nS > 0, "")
+	judgeE2E(c, e2eProcs, e2eLimit)
 	missing := 0
 	for _, h := range hs {
 		if _, ok := results[h.ID]; !ok {
